@@ -617,7 +617,9 @@ func transitions(loc *time.Location) []int64 {
 
 var c19Layouts = []string{"15:04:05.000", "2006-01-02 15:04:05.000 MST", "15:04 MST", "2006-01-02", "2006-01-02 15:04:05", "15:04", "02/01/2006", "2006-01-02T15:04:05-0700", "20060102150405", "05 04 15", "-0700 2006", "x", "", "2006年01月02日",
 	// layouts without any digit, and name elements next to numeric ones
-	"Monday", "Mon", "January", "Jan", "MST", "PM", "pm", "Monday, January", "Mon Jan MST", "Monday 02 January 2006 15:04 PM", "Jan 02 (Mon) 05", "Z MST Z"}
+	"Monday", "Mon", "January", "Jan", "MST", "PM", "pm", "Monday, January", "Mon Jan MST", "Monday 02 January 2006 15:04 PM", "Jan 02 (Mon) 05", "Z MST Z",
+	// blanks at the edges of a layout are rendered like any other text
+	"15:04 ", " 2006", "\t15", "   ", "2006-01-02\n", " Jan 02 ", "\u00a015:04\u00a0"}
 
 func init() { c19.Run = runC19 }
 
